@@ -130,6 +130,7 @@ func (fx *FX) execInstr(st *State, in ssa.Instruction) {
 			fx.vals[x] = VInt{r}
 			fx.labelCopy(x, x.X)
 		case VMap:
+			fx.mapCompareCheck(st, x)
 			fx.u.mapLookup(fx, st, b, x)
 		default:
 			fx.unsupported(st, in)
